@@ -359,7 +359,8 @@ EXPLANATION = ("Text encodings: symbolic (bit-vector) contracts for the BCH chec
                "property's finite quantifiers (all versions x lengths x networks, all payload lengths x zero runs, all single substitutions) and an "
                "exhaustive syndrome table for <=2 substitutions.")
 CATEGORY = "other"
-LEVEL_TEXT = ("Mixed. Deductive (pyvc + z3, all inputs): bech32_polymod on all 32^7 seven-symbol inputs (hence the per-symbol step for every register state), "
+LEVEL_TEXT = ("Mixed. Deductive (pyvc + z3, all inputs): bech32_polymod for symbol lists of EVERY length (loop invariant against the recursively defined GF(32) shift "
+              "register spec.text.polymod_rec; symbolic-length list, 40-bit mode) and on all 32^7 seven-symbol inputs, "
               "group_32 for program lengths 2/5/20/32, the five scriptPubKey templates for every hash. Exhaustive tables (real bech32_polymod): for each of 3 HRPs x "
               "every data-part length of programs 2..40, no <=2-character substitution of any valid address passes the checksum. Everything that produces or "
               "consumes text (base58, bech32 strings, address maps, WIF) is NOT proved: pyvc has no symbolic strings, those contracts are `undecided` and are "
